@@ -394,6 +394,8 @@ def finish(prop, tier, seed, t0, parts, violations=(), broken=(), undecided=(), 
                                     unwind=h.get('unwind'), checks=h.get('checks'), status=h.get('status'),
                                     solver_s=h.get('solver_s'), vccs=h.get('vccs')))
         for q in p.get('query_list', []):
+            if q.get('status') == 'witness':
+                continue
             obligations += q.get('checks', 0)
             if q.get('status') == 'pass':
                 discharged += q.get('checks', 0)
